@@ -1,29 +1,46 @@
 import SamplyModel.Proto
 import SamplyModel.Model.SourceApi
 /-!
-Line protocol for C09 (`/source/v1` confinement). All strings are hex-encoded UTF-8 (`-` = empty string),
-`~` = absent.
+Line protocol for C09 (`/source/v1` confinement), version 2: several offsets of one library served by ONE
+symbol manager, several debug-file candidates, the receiver of `location_for_source_file` observable.
+All strings are hex-encoded UTF-8 (`-` = empty string), `~` = absent.
 
-ops (the first five lines are the header; they describe one `(module, offset)` and the helper):
-  `module <kind> <debugName> <breakpadId> <payload>`   how the harness serves the module (opaque here)
-  `offset <n>`                                         the queried module offset (opaque here)
-  `lookup <nosymbols|notfound|noframes|frames> <frame>*`
-        the direct `SymbolMap::lookup` of that offset, innermost frame first; a frame is `~` (no file) or
+ops (the first five lines are the header):
+  `module <kind> <debugName> <breakpadId> <payload>`
+        how the harness serves the library (kind and payload opaque here); `<breakpadId>` is the debug id every
+        well-formed request of the case asks for
+  `helper <d|c> <cand>*`     cand = `<l|r>,<path>,<ok|other|absent|junk>`
+        `c`: what `get_candidate_paths_for_debug_file` returns, in order: location tag (`l`ocal / `r`emote),
+        path, and what the helper serves there (the library, another build of it, nothing, garbage);
+        `d`: the helper supplies the symbol map itself (`get_symbol_map_for_library`), the one cand is its location
+  `loaded <res>*`            res = `e` | `<breakpadId>,<l|r>,<path>`
+        oracle, one per cand: `load_symbol_map_from_location` of that candidate alone failed, or the debug id and
+        the `debug_file_location()` of the symbol map it gave
+  `lookup <group>*`          group = `<offset>=<nosymbols|notfound|noframes|frames>[/<frame>]*`
+        oracle: `SymbolMap::lookup` of each offset on a fresh symbol map of the library (the first `loaded` entry
+        with the requested id), innermost frame first; a frame is `~` (no file) or
         `<raw>,n` | `<raw>,g,<repo>,<path>,<rev>` | `<raw>,h,<repo>,<path>,<rev>` |
         `<raw>,s,<bucket>,<digest>,<path>` | `<raw>,c,<registry>,<crate>,<version>,<path>`
-  `sym none` | `sym panic` | `sym files <outer file|~> <inline file|~>*`
-        what `/symbolicate/v5` reports for that offset (`debug_info.file`, `inlines[].file`)
-  `store <all|abs> <path>:<len>*`
-        helper: `location_for_source_file` accepts every path / absolute paths only; which source
-        locations can be read and how long the file is
-  then requests, all for that module and offset:
-  `req <file> [tag]` | `reqbadid <file> [tag]` (invalid debugId) | `reqmalformed <file> [tag]` (body does
-  not deserialise); the tag names the generator family and is ignored
+  `store <all|abs|wholesym> <aux|noaux> <path>:<len>*`
+        helper: `location_for_source_file` accepts every path / absolute paths only / follows wholesym's policy;
+        whether dwo / dwp / external object files can be loaded (opaque here); which source locations can be
+        read and how long the file is
+  then requests, all served by one `SymbolManager`, offsets interleaved:
+  `req <offset> <file> [tag]` | `reqbadid <offset> <file> [tag]` | `reqmalformed <offset> <file> [tag]`
+  `reqx <debugName> <=|u<id>|b<id>> <moduleOffset string> <file> [tag]`
+        the body field by field: another library name; the module's id (`=`), a well-formed id nobody has (`u`),
+        a string `to_debug_id` rejects (`b`); the `moduleOffset` member as sent (`0x` prefix, sign, case, leading
+        zeros, overflow, junk)
 
 out:
-  `api <spelling|~>*`           `to_api_file_path` of every frame's file path
-  `r <class> <location>*`       one per request: response class `ok:<len>` | `err:<kind>` and the ordered
-                                source-file locations passed to `load_file` during the request
+  per lookup group, in order:
+  `api <offset> <spelling|~>*`     `to_api_file_path` of every frame's file path
+  `sym <offset> - | panic | <outer file|~> <inline file|~>*`
+        what ONE `/symbolicate/v5` request for all offsets of the case (and neighbours) reports for the offset
+        (`-` = neither `file` nor `inlines`)
+  `r <class> <location>*`          one per request: response class `ok:<len>` | `err:<kind>` and the ordered
+        source-file locations passed to `load_file`; location = `<l|r>,<receiver path>,<path>`: tag and path of
+        the location `location_for_source_file` was called on, and the resulting path
 -/
 namespace C09
 open SourceApi Proto
@@ -56,27 +73,83 @@ def parseFrame (tok : String) : Option Frame :=
     pure ⟨some ⟨r, some (.cargo a b c d)⟩⟩
   | _ => none
 
-def parseLookup (l : String) : Option Lookup :=
+/-- `<offset>=<class>[/<frame>]*` -/
+def parseGroup (tok : String) : Option (Nat × Lookup) :=
+  match tok.splitOn "=" with
+  | [o, rest] => do
+    let o ← o.toNat?
+    match rest.splitOn "/" with
+    | ["nosymbols"] => pure (o, .noSymbols)
+    | ["notfound"] => pure (o, .notFound)
+    | ["noframes"] => pure (o, .noFrames)
+    | "frames" :: toks => do
+      let fs ← toks.mapM parseFrame
+      pure (o, .frames fs)
+    | _ => none
+  | _ => none
+
+def parseLookups (l : String) : Option (List (Nat × Lookup)) :=
   match words l with
-  | ["lookup", "nosymbols"] => some .noSymbols
-  | ["lookup", "notfound"] => some .notFound
-  | ["lookup", "noframes"] => some .noFrames
-  | "lookup" :: "frames" :: toks => (toks.mapM parseFrame).map .frames
+  | "lookup" :: toks => toks.mapM parseGroup
   | _ => none
 
 def parseOptStr (tok : String) : Option (Option String) :=
   if tok = "~" then some none else (decodeStr tok).map some
 
-/-- reported files of the `sym` line (absent ones dropped) -/
-def parseSym (l : String) : Option (List String) :=
-  match words l with
-  | ["sym", "none"] => some []
-  | ["sym", "panic"] => some []   -- `/symbolicate/v5` panicked (empty frame list from a helper-supplied map)
-  | "sym" :: "files" :: toks => (toks.mapM parseOptStr).map (·.filterMap id)
+/-- the helper's location type for debug files: local / remote tag and path -/
+structure DebugLoc where
+  remote : Bool
+  path : String
+  deriving DecidableEq, Repr
+
+/-- a source-file location: the receiver `location_for_source_file` was called on, and the resulting path -/
+structure SrcLoc where
+  remote : Bool
+  base : String
+  path : String
+  deriving DecidableEq, Repr
+
+def parseTag (t : String) : Option Bool :=
+  if t = "l" then some false else if t = "r" then some true else none
+
+def parseCand (tok : String) : Option DebugLoc :=
+  match tok.splitOn "," with
+  | [t, p, c] =>
+    if c = "ok" ∨ c = "other" ∨ c = "absent" ∨ c = "junk" then do
+      let t ← parseTag t
+      let p ← decodeStr p
+      pure ⟨t, p⟩
+    else none
   | _ => none
 
+/-- `(direct?, candidate locations)` -/
+def parseHelper (l : String) : Option (Bool × List DebugLoc) :=
+  match words l with
+  | "helper" :: mode :: toks =>
+    if mode = "d" ∨ mode = "c" then (toks.mapM parseCand).map (fun cs => (mode = "d", cs)) else none
+  | _ => none
+
+/-- `e` | `<id>,<tag>,<path>`: `none` = load error -/
+def parseLoadedTok (tok : String) : Option (Option (String × DebugLoc)) :=
+  if tok = "e" then some none else
+  match tok.splitOn "," with
+  | [id, t, p] => do
+    let t ← parseTag t
+    let p ← decodeStr p
+    pure (some (id, ⟨t, p⟩))
+  | _ => none
+
+def parseLoaded (l : String) : Option (List (Option (String × DebugLoc))) :=
+  match words l with
+  | "loaded" :: toks => toks.mapM parseLoadedTok
+  | _ => none
+
+inductive Policy where
+  | all | abs | wholesym
+  deriving DecidableEq, Repr
+
 structure Store where
-  absOnly : Bool
+  policy : Policy
   files : List (String × Nat)
 
 def parseStoreEntry (tok : String) : Option (String × Nat) :=
@@ -89,40 +162,119 @@ def parseStoreEntry (tok : String) : Option (String × Nat) :=
 
 def parseStore (l : String) : Option Store :=
   match words l with
-  | "store" :: pol :: toks =>
-    if pol = "all" ∨ pol = "abs" then (toks.mapM parseStoreEntry).map (fun fs => ⟨pol = "abs", fs⟩)
-    else none
+  | "store" :: pol :: aux :: toks =>
+    if aux ≠ "aux" ∧ aux ≠ "noaux" then none else do
+    let pol ← (if pol = "all" then some Policy.all else if pol = "abs" then some Policy.abs
+               else if pol = "wholesym" then some Policy.wholesym else none)
+    let fs ← toks.mapM parseStoreEntry
+    pure ⟨pol, fs⟩
   | _ => none
 
-def Store.locationFor (st : Store) (p : String) : Option String :=
-  if st.absOnly && !(p.startsWith "/") then none else some p
+/-- `std::path` on Unix for the well-formed paths the generator uses (no doubled or trailing separators in
+debug-file paths): `is_absolute` = starts with `/`; `parent` drops the last component (`None` for `/` and the
+empty path, `""` for a single relative component); `join` of a relative path appends after one separator. -/
+def unixPathOps : PathOps where
+  isAbsolute := fun p => p.startsWith "/"
+  parent := fun p =>
+    if p = "" ∨ p = "/" then none else
+    match (p.splitOn "/").reverse with
+    | [] => none
+    | [_] => some ""
+    | _ :: rest =>
+      let d := "/".intercalate rest.reverse
+      some (if d = "" then "/" else d)
+  join := fun b p => if b = "" then p else if b.endsWith "/" then b ++ p else b ++ "/" ++ p
 
-def Store.fileLen (st : Store) (loc : String) : Option Nat :=
-  (st.files.find? (·.1 == loc)).map (·.2)
+def toWLoc (dl : DebugLoc) : WLoc := if dl.remote then .remote else .localFile dl.path
 
-def parseReq (l : String) : Option Request :=
+def Store.locationFor (st : Store) (dl : DebugLoc) (p : String) : Option SrcLoc :=
+  match st.policy with
+  | .all => some ⟨dl.remote, dl.path, p⟩
+  | .abs => if p.startsWith "/" then some ⟨dl.remote, dl.path, p⟩ else none
+  | .wholesym =>
+    match wholesymLocationFor unixPathOps (toWLoc dl) p with
+    | some (.localFile q) => some ⟨dl.remote, dl.path, q⟩
+    | some (.url u) => some ⟨dl.remote, dl.path, "url:" ++ u⟩
+    | _ => none
+
+def Store.fileLen (st : Store) (loc : SrcLoc) : Option Nat :=
+  (st.files.find? (·.1 == loc.path)).map (·.2)
+
+/-- A request and whether it asks for the case's library (name and id of the module line). -/
+structure Req where
+  own : Bool
+  rq : OffsetRequest
+
+def parseReq (name id : String) (l : String) : Option Req :=
   match words l with
-  | "req" :: f :: _ => (decodeStr f).map (fun f => ⟨true, true, f⟩)
-  | "reqbadid" :: f :: _ => (decodeStr f).map (fun f => ⟨true, false, f⟩)
-  | "reqmalformed" :: f :: _ => (decodeStr f).map (fun f => ⟨false, true, f⟩)
+  | "req" :: o :: f :: _ => do
+    let o ← o.toNat?; let f ← decodeStr f
+    pure ⟨true, ⟨true, some id, o, f⟩⟩
+  | "reqbadid" :: o :: f :: _ => do
+    let o ← o.toNat?; let f ← decodeStr f
+    pure ⟨true, ⟨true, none, o, f⟩⟩
+  | "reqmalformed" :: o :: f :: _ => do
+    let o ← o.toNat?; let f ← decodeStr f
+    pure ⟨true, ⟨false, some id, o, f⟩⟩
+  | "reqx" :: n :: idTok :: off :: f :: _ => do
+    let n ← decodeStr n; let off ← decodeStr off; let f ← decodeStr f
+    let (known, dbg) ← (if idTok = "=" then some (true, some id)
+      else if idTok.startsWith "u" then (decodeStr (idTok.drop 1).toString).map (fun i => (false, some i))
+      else if idTok.startsWith "b" then some (true, none)
+      else none)
+    pure ⟨n == name && known, (⟨true, off.toList, dbg, f⟩ : RawRequest).toOffsetRequest⟩
   | _ => none
 
 structure Case where
-  lookup : Lookup
-  reported : List String
+  name : String
+  id : String
+  direct : Bool
+  cands : List (Option (String × DebugLoc))
+  lookups : List (Nat × Lookup)
   store : Store
-  reqs : List Request
+  reqs : List Req
+
+def lookupFn (gs : List (Nat × Lookup)) (o : Nat) : Lookup :=
+  match gs.find? (·.1 == o) with
+  | some g => g.2
+  | none => .notFound     -- unreachable: `parse` rejects requests for offsets without a group
 
 def parse (ls : List String) : Option Case :=
   match ls with
-  | m :: o :: lk :: sy :: st :: reqs =>
-    if (words m).head? ≠ some "module" ∨ (words o).head? ≠ some "offset" then none else do
-    let lookup ← parseLookup lk
-    let reported ← parseSym sy
-    let store ← parseStore st
-    let reqs ← reqs.mapM parseReq
-    pure ⟨lookup, reported, store, reqs⟩
+  | m :: h :: ld :: lk :: st :: reqs =>
+    match words m with
+    | "module" :: _ :: name :: id :: _ => do
+      let (direct, cands) ← parseHelper h
+      let loaded ← parseLoaded ld
+      if loaded.length ≠ cands.length then none else
+      if direct ∧ cands.length ≠ 1 then none else
+      let lookups ← parseLookups lk
+      let store ← parseStore st
+      let reqs ← reqs.mapM (parseReq name id)
+      if reqs.any (fun r => r.rq.parsed && !(lookups.any (·.1 == r.rq.offset))) then none else
+      pure ⟨name, id, direct, loaded, lookups, store, reqs⟩
+    | _ => none
   | _ => none
+
+/-- the manager of the case, as the model sees it -/
+def Case.manager (c : Case) : Manager DebugLoc SrcLoc :=
+  let mk : String × DebugLoc → Loaded DebugLoc := fun (id, dl) => ⟨id, dl, lookupFn c.lookups⟩
+  let rs : List (CandResult DebugLoc) := c.cands.map (fun o =>
+    match o with
+    | none => .err
+    | some x => .ok (mk x))
+  if c.direct then
+    match c.cands with
+    | [some x] => ⟨some (mk x), [], c.store.locationFor, c.store.fileLen⟩
+    | _ => ⟨none, [], c.store.locationFor, c.store.fileLen⟩
+  else ⟨none, rs, c.store.locationFor, c.store.fileLen⟩
+
+/-- what the helper offers for a library it does not know (other name, or an id nobody has): nothing -/
+def Case.emptyManager (c : Case) : Manager DebugLoc SrcLoc :=
+  ⟨none, [], c.store.locationFor, c.store.fileLen⟩
+
+def Case.managerFor (c : Case) (r : Req) : Manager DebugLoc SrcLoc :=
+  if r.own then c.manager else c.emptyManager
 
 def showOutcome : Outcome → String
   | .ok n => s!"ok:{n}"
@@ -150,84 +302,176 @@ def framesOf : Lookup → List Frame
   | .frames fs => fs
   | _ => []
 
-def showResult (r : Result String) : String :=
-  " ".intercalate (("r" :: showOutcome r.outcome :: r.loads.map encodeStr))
+def showLoc (l : SrcLoc) : String :=
+  (if l.remote then "r" else "l") ++ "," ++ encodeStr l.base ++ "," ++ encodeStr l.path
+
+def parseLoc (tok : String) : Option SrcLoc :=
+  match tok.splitOn "," with
+  | [t, b, p] => do
+    let t ← parseTag t; let b ← decodeStr b; let p ← decodeStr p
+    pure ⟨t, b, p⟩
+  | _ => none
+
+def showResult (r : Result SrcLoc) : String :=
+  " ".intercalate (("r" :: showOutcome r.outcome :: r.loads.map showLoc))
+
+def optTok (o : Option String) : String :=
+  match o with
+  | none => "~"
+  | some s => encodeStr s
+
+def showSym (o : Nat) (e : SymEntry) : String :=
+  match e with
+  | .noDebugInfo => s!"sym {o} -"
+  | .panic => s!"sym {o} panic"
+  | .info r =>
+    if r.file.isNone && r.inlines.isEmpty then s!"sym {o} -"
+    else " ".intercalate ("sym" :: toString o :: optTok r.file :: r.inlines.map optTok)
 
 def model (ls : List String) : List String :=
   match parse ls with
   | none => ["bad-op"]
   | some c =>
-    let env : Env String := ⟨c.lookup, c.store.locationFor, c.store.fileLen⟩
-    let api := " ".intercalate ("api" :: (framesOf c.lookup).map (fun f =>
-      match f.filePath with
-      | none => "~"
-      | some fp => encodeStr (toApiFilePath fp)))
-    api :: c.reqs.map (fun rq => showResult (sourceApi toApiFilePath env rq))
+    let m := c.manager
+    let perOffset := c.lookups.flatMap (fun (o, lk) =>
+      let api := " ".intercalate ("api" :: toString o :: (framesOf lk).map (fun f =>
+        match f.filePath with
+        | none => "~"
+        | some fp => encodeStr (toApiFilePath fp)))
+      -- what the batched `/symbolicate/v5` model reports for this offset
+      [api, showSym o (symbolicateAt toApiFilePath m (some c.id) o)])
+    perOffset ++ c.reqs.map (fun r => showResult (sourceApiAt toApiFilePath (c.managerFor r) r.rq))
 
-def parseResult (l : String) : Option (Result String) :=
+def parseResult (l : String) : Option (Result SrcLoc) :=
   match words l with
   | "r" :: cls :: locs => do
     let o ← parseOutcome cls
-    let ls ← locs.mapM decodeStr
+    let ls ← locs.mapM parseLoc
     pure ⟨ls, o⟩
   | _ => none
 
-/-- The judge evaluates the statement of C09 (`SourceApi.specOk`) on the implementation's own output:
-the permitted set is what `/symbolicate/v5` reported for the offset (`sym` line), the frames' raw paths come
-from the direct lookup (`lookup` line) and their spellings from the implementation's `api` line — not from
-the model's `findPermitted`/`toApiFilePath`. -/
+/-- Specification side of "the debug file's location": the location of the first candidate that loaded with
+the requested id (or of the helper-supplied map). Declarative (`filter` + `head?`), not the model's loop. -/
+def Case.winner (c : Case) : Option DebugLoc :=
+  if c.direct then
+    match c.cands with
+    | [some x] => some x.2
+    | _ => none
+  else ((c.cands.filterMap (fun x => x)).filter (fun x => x.1 == c.id)).head?.map (·.2)
+
+/-- `api <offset> tok*` → `(offset, spellings)` -/
+def parseApiLine (l : String) : Option (Nat × List (Option String)) :=
+  match words l with
+  | "api" :: o :: toks => do
+    let o ← o.toNat?
+    let a ← toks.mapM parseOptStr
+    pure (o, a)
+  | _ => none
+
+/-- `sym <offset> …` → `(offset, reported files)`; `none` on a panic or a malformed line -/
+def parseSymLine (l : String) : Option (Nat × List String) :=
+  match words l with
+  | ["sym", o, "-"] => o.toNat?.map (fun o => (o, []))
+  | ["sym", _, "panic"] => none
+  | "sym" :: o :: toks => do
+    let o ← o.toNat?
+    let fs ← toks.mapM parseOptStr
+    pure (o, fs.filterMap id)
+  | _ => none
+
+structure OffsetView where
+  offset : Nat
+  /-- (raw path from the lookup oracle, spelling from the implementation's `api` line) per frame with a file -/
+  pairs : List (String × String)
+  /-- the files the implementation's batched `/symbolicate/v5` reported for the offset -/
+  reported : List String
+
+/-- The judge evaluates the statement of C09 (`SourceApi.specOk`) on the implementation's own output: per
+offset the permitted set is what the real batched `/symbolicate/v5` reported (the implementation's `sym` line),
+the frames' raw paths come from the direct lookup (`lookup` line) and their spellings from the implementation's
+`api` line; the debug file's location is the first candidate loaded with the requested id (`Case.winner`). It
+does not use `findPermitted` / `toApiFilePath` / `loadSymbolMap` / `sourceApi`. -/
 def judge (ops impl : List String) : Bool × String :=
   match parse ops with
   | none => (false, "bad-op")
   | some c =>
     if impl.contains "panic" then (false, "implementation panicked") else
-    match impl with
-    | [] => (false, "no output")
-    | apiLine :: rs =>
-      match words apiLine with
-      | "api" :: toks =>
-        match toks.mapM parseOptStr with
-        | none => (false, "bad api line")
-        | some apis =>
-          let fs := framesOf c.lookup
-          if apis.length ≠ fs.length then (false, "api line does not have one entry per frame") else
-          -- (raw, spelling) of every frame with a file
+    if impl.contains "oracle-mismatch" then (false, "oracle lines do not describe the code (stale case)") else
+    let nOff := c.lookups.length
+    let head := impl.take (2 * nOff)
+    let rs := impl.drop (2 * nOff)
+    if head.length ≠ 2 * nOff then (false, "missing api / sym lines") else
+    let rec views (gs : List (Nat × Lookup)) (ls : List String) : Except String (List OffsetView) :=
+      match gs, ls with
+      | [], _ => .ok []
+      | (o, lk) :: gs, a :: s :: ls =>
+        match parseApiLine a with
+        | none => .error "bad api line"
+        | some (oa, apis) =>
+          if oa ≠ o then .error "api line for the wrong offset" else
+          let fs := framesOf lk
+          if apis.length ≠ fs.length then .error "api line does not have one entry per frame" else
           let pairs : List (String × String) := (fs.zip apis).filterMap (fun (f, a) =>
             match f.filePath, a with
             | some fp, some a => some (fp.rawPath, a)
             | _, _ => none)
-          if pairs.length ≠ (filePaths fs).length then (false, "api line misses a frame's file") else
-          if rs.length ≠ c.reqs.length then (false, "wrong number of response lines") else
-          let rec go (reqs : List Request) (rs : List String) (k : Nat) : Bool × String :=
-            match reqs, rs with
-            | [], _ => (true, "ok")
-            | _, [] => (true, "ok")
-            | rq :: reqs, l :: rs =>
-              match parseResult l with
-              | none => (false, s!"request {k}: bad response line")
-              | some res =>
-                let wf := rq.parsed && rq.debugIdOk
-                if !specOk pairs c.reported c.store.locationFor wf rq.file res then
-                  let what :=
-                    if res.loads.length > 1 then "more than one source file read"
-                    else if !res.loads.isEmpty && !(wf && c.reported.contains rq.file) then
-                      "a source file was read although the requested path is not one reported for this offset"
-                    else if !res.loads.isEmpty then
-                      "the file read is not the raw path of a frame of this offset with the requested spelling"
-                    else if wf && c.reported.contains rq.file then
-                      "a path reported by /symbolicate/v5 for this offset was not accepted"
-                    else "refusal with a read"
-                  (false, s!"request {k} ({encodeStr rq.file}): {what}")
-                else
-                  -- the returned source is the content of the location that was read
-                  match res.outcome, res.loads with
-                  | .ok n, [l] =>
-                    if c.store.fileLen l ≠ some n then
-                      (false, s!"request {k}: returned source is not the content of the file read")
-                    else go reqs rs (k + 1)
-                  | .ok _, _ => (false, s!"request {k}: source returned without exactly one read")
-                  | _, _ => go reqs rs (k + 1)
-          go c.reqs rs 0
-      | _ => (false, "missing api line")
+          if pairs.length ≠ (filePaths fs).length then .error "api line misses a frame's file" else
+          let reported : Except String (List String) :=
+            match words s with
+            | ["sym", o', "panic"] =>
+              -- excluded point: `/symbolicate/v5` panics on an empty frame list of a helper-supplied map
+              if o'.toNat? == some o && fs.isEmpty && (match lk with | .frames _ => true | _ => false) then .ok []
+              else .error "/symbolicate/v5 panicked"
+            | _ =>
+              match parseSymLine s with
+              | some (os, r) => if os = o then .ok r else .error "sym line for the wrong offset"
+              | none => .error "bad sym line"
+          match reported with
+          | .error e => .error e
+          | .ok reported =>
+            match views gs ls with
+            | .error e => .error e
+            | .ok vs => .ok (⟨o, pairs, reported⟩ :: vs)
+      | _, _ => .error "missing api / sym lines"
+    match views c.lookups head with
+    | .error e => (false, e)
+    | .ok vs =>
+      if rs.length ≠ c.reqs.length then (false, "wrong number of response lines") else
+      let win := c.winner
+      let locFor : String → Option SrcLoc := fun raw =>
+        match win with
+        | none => none
+        | some dl => c.store.locationFor dl raw
+      let rec go (reqs : List Req) (rs : List String) (k : Nat) : Bool × String :=
+        match reqs, rs with
+        | [], _ => (true, "ok")
+        | _, [] => (true, "ok")
+        | r :: reqs, l :: rs =>
+          let rq := r.rq
+          -- a request for another library (name / id nobody has), or with an unparsable offset: nothing is
+          -- reported for it, nothing may be read
+          let view : Option OffsetView :=
+            if r.own && rq.parsed then vs.find? (·.offset == rq.offset) else some ⟨rq.offset, [], []⟩
+          let locFor : String → Option SrcLoc := if r.own then locFor else fun _ => none
+          match parseResult l, view with
+          | none, _ => (false, s!"request {k}: bad response line")
+          | _, none => (false, s!"request {k}: no view of its offset")
+          | some res, some v =>
+            let wf := rq.parsed && rq.debugId.isSome
+            if !specOk v.pairs v.reported locFor c.store.fileLen wf rq.file res then
+              let what :=
+                if res.loads.length > 1 then "more than one source file read"
+                else if !res.loads.isEmpty && !(wf && v.reported.contains rq.file) then
+                  "a source file was read although the requested path is not one reported for this offset"
+                else if !res.loads.isEmpty &&
+                    !res.loads.all (fun l => v.pairs.any (fun p => p.2 == rq.file && locFor p.1 == some l)) then
+                  "the file read is not the location the debug file's location gives for the raw path of a frame of this offset with the requested spelling"
+                else if wf && v.reported.contains rq.file && !res.outcome.accepted then
+                  "a path reported by /symbolicate/v5 for this offset was not accepted"
+                else if !res.outcome.accepted && !res.loads.isEmpty then "refusal with a read"
+                else "the response class is not justified by the helper (content / readability / location of the file)"
+              (false, s!"request {k} (offset {rq.offset}, {encodeStr rq.file}): {what}")
+            else go reqs rs (k + 1)
+      go c.reqs rs 0
 
 end C09
